@@ -930,6 +930,17 @@ class Models:
             return Sym(s_.kind, z3.SubSeq(s_.t, lo, hi - lo))
         return Builtin('prims.seq_slice', f)
 
+    def _kind_by_name(self, n):
+        if isinstance(n, K.Kind):
+            return n
+        return {'Str': K.Str, 'Int': K.Int, 'Bool': K.Bool, 'Dyn': K.Dyn, 'Val': K.U('Val', plain=True), 'Path': K.Path}[n]
+
+    def x_pyvc_prims_empty_map(self):
+        return Builtin('prims.empty_map', lambda ex_, a, k: P.empty_map(ex_, K.Map(self._kind_by_name(a[0]), self._kind_by_name(a[1]))))
+
+    def x_pyvc_prims_empty_seq(self):
+        return Builtin('prims.empty_seq', lambda ex_, a, k: Sym(K.Seq(self._kind_by_name(a[0])), z3.Empty(K.Seq(self._kind_by_name(a[0])).sort())))
+
     def x_pyvc_prims_same_map(self):
         def f(ex_, a, k):
             from . import loops
